@@ -1123,9 +1123,19 @@ def run_program(env, cfg, prog, record=True, plain=False, fault=None, emulate_ac
                     n_.article = a_
                     sp_ = sp_handles.pop()
                     try:
-                        with sp_:                     # the savepoint as context manager, as in the documentation
-                            s.add_all([a_, n_])
-                            s.flush()
+                        if len(op) > 3 and op[3] == 'explicit':
+                            # try / except with an explicit rollback of the savepoint (the insert-or-skip loop)
+                            try:
+                                s.add_all([a_, n_])
+                                s.flush()
+                            except sa.exc.IntegrityError:
+                                sp_.rollback()
+                                raise
+                            sp_.commit()
+                        else:
+                            with sp_:                 # the savepoint as context manager, as in the documentation
+                                s.add_all([a_, n_])
+                                s.flush()
                         outcomes.append('flushed')
                         mark('sprelease')
                     except sa.exc.IntegrityError:
